@@ -97,12 +97,71 @@ def run(ctx, rep):
 
 # ---------------------------------------------------------------------------
 def filter_fragment(ctx):
+    _USER["ctx"] = ctx
     E = ctx.func(T.EVAL)
     body = E.body()
-    idx = [i for i, s in enumerate(body) if mentions(s, *FILTER)]
+
+    def mutates(node):
+        for sub in ast.walk(node):
+            if isinstance(sub, ast.Call) and isinstance(sub.func, ast.Attribute) and sub.func.attr in ("append", "pop", "insert", "clear", "remove", "extend") and mentions(sub.func.value, *FILTER):
+                return True
+            if isinstance(sub, (ast.Assign, ast.AugAssign, ast.Delete)):
+                tg = sub.targets if not isinstance(sub, ast.AugAssign) else [sub.target]
+                if any(mentions(t, *FILTER) for t in tg):
+                    return True
+        return False
+
+    def touches(s):
+        if mentions(s, *FILTER):
+            return True
+        # a call of a helper of the same class that changes the filter lists
+        for sub in ast.walk(s):
+            if isinstance(sub, ast.Call):
+                h = _helper_of(ctx, E, sub)
+                if h is not None and mutates(h.node):
+                    return True
+        return False
+    idx = [i for i, s in enumerate(body) if touches(s)]
     if not idx:
         raise AnalysisError("no statement of the evaluation routine touches the filter lists")
-    return E, body[idx[0]: idx[-1] + 1]
+    core = body[idx[0]: idx[-1] + 1]
+    # backward slice: earlier top-level statements that define the decision
+    # variables read by the core (not the new point's own values)
+    point = set()
+    for s in core:
+        for node in ast.walk(s):
+            if isinstance(node, ast.Call) and isinstance(node.func, ast.Attribute) and node.func.attr == "append" and node.args and isinstance(node.args[0], ast.Name) and mentions(node.func.value, *FILTER):
+                point.add(node.args[0].id)
+    need = set()
+    for s in core:
+        for x in ast.walk(s):
+            if isinstance(x, ast.Name) and isinstance(x.ctx, ast.Load):
+                need.add(x.id)
+    need -= point
+    pre = []
+    for s in reversed(body[: idx[0]]):
+        if isinstance(s, ast.Assign) and all(isinstance(t, ast.Name) for t in s.targets) and any(t.id in need for t in s.targets):
+            # only decisions derived from the filter state are part of the fragment
+            uses_filter = mentions(s, *FILTER) or any(isinstance(c, ast.Call) and (lambda h: h is not None and mentions(h.node, *FILTER))(_helper_of(ctx, E, c)) for c in ast.walk(s))
+            if uses_filter:
+                pre.insert(0, s)
+                for x in ast.walk(s.value):
+                    if isinstance(x, ast.Name):
+                        need.add(x.id)
+                need -= point
+    return E, pre + core
+
+
+def _helper_of(ctx, E, call):
+    fn = call.func
+    if isinstance(fn, ast.Attribute) and isinstance(fn.value, ast.Name) and fn.value.id == E.self_name and E.cls is not None:
+        h = E.cls.methods.get(fn.attr)
+        if h is not None and h.kind == "function":
+            return h
+    return None
+
+
+_USER = {}
 
 
 def simulate(frag, E, p, retained, filter_size, names):
@@ -115,7 +174,12 @@ def simulate(frag, E, p, retained, filter_size, names):
     }
     attrs = dict(lists)
     attrs[f"{sn}._filter_size"] = filter_size
-    env = minieval.Env({fun_name: p[0], maxcv_name: p[1], x_name: "p"}, attrs)
+    def user(call):
+        h = _USER.get("ctx") and _helper_of(_USER["ctx"], E, call)
+        if h:
+            return h.node, h.self_name
+        return None
+    env = minieval.Env({fun_name: p[0], maxcv_name: p[1], x_name: "p"}, attrs, user=user)
 
     def on_call(call, env):
         fn = call.func
@@ -136,6 +200,7 @@ def simulate(frag, E, p, retained, filter_size, names):
                 return
         raise minieval.Unsupported(f"call statement {norm(call)[:50]}")
 
+    env.on_call = on_call
     minieval.run_block(frag, env, on_call)
     return [env.attrs[f"{sn}.{k}"] for k in FILTER]
 
@@ -156,6 +221,7 @@ def fragment_names(ctx, E, frag):
 
 
 def r31(ctx, rep):
+    _USER["ctx"] = ctx
     E, frag = filter_fragment(ctx)
     names = fragment_names(ctx, E, frag)
     big = 10 ** 9
